@@ -76,6 +76,11 @@ MUTATIONS = [
     ("condition-parameters-unsorted", ["C14"], edit("pkg/go/transformer/jsontodsl.go", "\tsort.Strings(parameterNames)\n", "")),
     ("sort-by-module-without-name-tiebreak", ["C14"], edit("pkg/go/transformer/jsontodsl.go", "\t} else if aFile != bFile {\n\t\treturn cmp.Compare(aFile, bFile)\n\t}\n\n\treturn cmp.Compare(aName, bName)", "\t} else if aFile != bFile {\n\t\treturn cmp.Compare(aFile, bFile)\n\t}\n\n\treturn 0")),
     ("merge-loses-extension-relation-attribution", ["C07"], edit("pkg/go/transformer/module-to-model.go", "\t\t\t\trelationsMeta.SourceInfo = &openfgav1.SourceInfo{\n\t\t\t\t\tFile: filename,\n\t\t\t\t}\n", "")),
+    # the printer returns an unsafe string over a pooled buffer: correct when returned, clobbered by the next call
+    ("printer-unsafe-string-over-pooled-buffer", ["C13", "C14"], multi(
+        edit("pkg/go/transformer/jsontodsl.go", "\treturn fmt.Sprintf(`model\n  schema %v\n%v%v`, schemaVersion, typeDefsString, parsedConditionsString), nil\n}",
+             "\tbuf, _ := dslBuffers.Get().(*[]byte)\n\t*buf = fmt.Appendf((*buf)[:0], `model\n  schema %v\n%v%v`, schemaVersion, typeDefsString, parsedConditionsString)\n\tout := unsafe.String(unsafe.SliceData(*buf), len(*buf))\n\tdslBuffers.Put(buf)\n\n\treturn out, nil\n}\n\nvar dslBuffers = sync.Pool{New: func() any { b := make([]byte, 0, 4096); return &b }}"),
+        edit("pkg/go/transformer/jsontodsl.go", "import (", "import (\n\t\"sync\"\n\t\"unsafe\""))),
 ]
 
 def main():
